@@ -306,7 +306,7 @@ def family_P(seed: int, count: int, *, dup_names: bool = False, rich: bool = Fal
 
 
 def _p_machine(rng: random.Random, idx: int, dup_names: bool, rich: bool) -> dict:
-    pool = ["a", "b", "c", "d", "e", "f", "g", "h", "k"]
+    pool = ["a", "b", "c", "d", "e", "f", "g", "h", "k"] + [f"s{i}" for i in range(40)]
     used: List[str] = []
     paths: List[tuple] = []
 
@@ -331,12 +331,12 @@ def _p_machine(rng: random.Random, idx: int, dup_names: bool, rich: bool) -> dic
         paths.append(p)
         s: Dict[str, Any] = {"name": name}
         r = rng.random()
-        if depth < 2 and r < (0.45 if depth == 0 else 0.3) and len(used) < len(pool) - 2:
+        if depth < 2 and r < (0.45 if depth == 0 else 0.3) and len(used) < 7:
             par = rng.random() < 0.3
             if par:
                 s["parallel"] = True
             sib: set = set()
-            s["states"] = [mk(depth + 1, p, sib) for _ in range(rng.choice([2, 2, 3]) if len(used) < len(pool) - 3 else 1)]
+            s["states"] = [mk(depth + 1, p, sib) for _ in range(rng.choice([2, 2, 3]) if len(used) < 6 else 1)]
             if not par:
                 rng.choice(s["states"])["initial"] = True
         elif depth > 0 and r > 0.85:
